@@ -483,8 +483,55 @@ func c12Directed(c *core.Ctx) bool {
 			}
 		}
 	}
-	c.Count("directed_callback_scenarios", 20)
+	// (g) a Preprocess function declared over string, fed a *string (a pointer in a map, a pointer field of a struct record): a type
+	// mismatch - one issue, the function and the wrapped schema do not run
+	txt := "abc"
+	type inRec struct{ Code *string }
+	for _, data := range []any{map[string]any{"Code": &txt}, inRec{Code: &txt}} {
+		fnCalls, innerCalls := 0, 0
+		sch := z.Struct(z.Schema{"Code": z.Preprocess(func(s string, ctx z.Ctx) (string, error) { fnCalls++; return s + "!", nil },
+			z.String().TestFunc(func(any, z.Ctx) bool { innerCalls++; return true }))})
+		var d struct{ Code string }
+		m := sch.Parse(data, &d)
+		c.Eval(1)
+		if fnCalls != 0 || innerCalls != 0 || len(m["Code"]) != 1 {
+			c.Violation("preprocess-type-mismatch-not-reported", map[string]any{"schema": "{Code: Preprocess(func(s string) string, String().TestFunc(...))}", "input": fmt.Sprintf("%T holding a *string", data), "function_calls": fnCalls, "wrapped_schema_test_calls": innerCalls, "issues": fmt.Sprint(z.Issues.SanitizeMap(m)), "want": "one issue at Code, no calls"})
+			return false
+		}
+	}
+	// (h) a transform whose declared error type is a pointer and which returns a nil one: `error(nil *T) != nil` in Go - an error was
+	// returned, it is reported and the remaining transforms do not run
+	for _, mode := range []string{"Parse", "Validate"} {
+		var calls []string
+		sch := z.String().PostTransform(func(p any, ctx z.Ctx) error {
+			calls = append(calls, "first")
+			var e *c12TypedErr
+			return e
+		}).PostTransform(func(p any, ctx z.Ctx) error { calls = append(calls, "second"); return nil })
+		sv := "x"
+		var l z.ZogIssueList
+		if mode == "Parse" {
+			l = sch.Parse("x", &sv)
+		} else {
+			l = sch.Validate(&sv)
+		}
+		c.Eval(1)
+		if len(l) != 1 || strings.Join(calls, ",") != "first" {
+			c.Violation("post-transform-error-not-reported|"+mode, map[string]any{"schema": "String().PostTransform(returns (*MyErr)(nil) as error).PostTransform(second)", "issues": fmt.Sprint(z.Issues.SanitizeList(l)), "transforms_called": calls, "want": "one issue, only the first transform called"})
+			return false
+		}
+	}
+	c.Count("directed_callback_scenarios", 24)
 	return true
+}
+
+type c12TypedErr struct{ msg string }
+
+func (e *c12TypedErr) Error() string {
+	if e == nil {
+		return "typed nil error"
+	}
+	return e.msg
 }
 
 func ptr[T any](v T) *T { return &v }
